@@ -320,7 +320,19 @@ def run_r3(ctx, rule):
             if ev[0] == "call" and ev[2][0].endswith("Vec::resize") and len(ev[2][1]) > 1:
                 snap = ev[2][2]
                 cur = snap.get(("arg1", ("pos_in_buf",)), entry("pos_in_buf")) + snap.get(("arg1", ("valid_len",)), entry("valid_len")) + snap.get(("arg1", ("chunk_size",)), entry("chunk_size"))
-                law(rule, "read/resize-target", "the buffer is grown to window end + chunk_size", ev[2][1][1], cur, fn.loc(ev[1]))
+                target = ev[2][1][1]
+                # `resize(len.max(window end + chunk))` without a test in front is the same growth-on-demand
+                if isinstance(target, Aff) and len(target.t) == 1 and list(target.t)[0].startswith("call@") and target.c == 0:
+                    cb = int(list(target.t)[0][5:].split(".")[0]) if list(target.t)[0][5:].split(".")[0].isdigit() else None
+                    for e2 in st.events:
+                        if e2[0] == "call" and e2[1] == cb and e2[2][0].rsplit("::", 1)[-1] == "max" and len(e2[2][1]) == 2:
+                            a, b = e2[2][1]
+                            is_len = lambda x: isinstance(x, Aff) and len(x.t) == 1 and list(x.t)[0].startswith("call@")
+                            if is_len(a) and not is_len(b):
+                                target = b
+                            elif is_len(b) and not is_len(a):
+                                target = a
+                law(rule, "read/resize-target", "the buffer is grown to window end + chunk_size", target, cur, fn.loc(ev[1]))
     if not found:
         rule.bad("read/slice", "anchor missing: the slice handed to read (index_mut with a range)", kind="anchor-missing")
     # valid_len += n is dominated by n <= chunk_size
@@ -527,6 +539,12 @@ def run_r9(ctx, rule):
             e = e[3][names.index("chunk_size")] if "chunk_size" in names and len(e[3]) == len(names) else e
         if e[0] == "l" and sy.is_arg(e[1]) and f.j.get("pub"):
             rule.ok("%s stores its own parameter: a positive chunk size is the caller's obligation (c >= 1 in the property's quantifier)" % short(nid), f.loc(bi))
+            continue
+        if f.j.get("pub") and nid == DR + "set_chunk_size" and e[0] == "call" and norm(e[2]).rsplit("::", 1)[-1] == "max" and len(e[3]) == 2 and any(x[0] == "l" and sy.is_arg(x[1]) for x in e[3]) and any(x == ("c", 1) for x in e[3]):
+            rule.ok("%s stores max(size, 1): the configured size for every size the property quantifies over (c >= 1)" % short(nid), f.loc(bi))
+            continue
+        if f.j.get("pub") and nid == DR + "set_chunk_size":
+            rule.bad("%s/setter-identity" % nid, "set_chunk_size stores %s, not the size the caller configured: reads are no longer of the configured size" % sy.show(e)[:60], f.loc(bi))
             continue
         lo = _lower(f, e)
         rule.check(lo >= 1, "%s/chunk_size-positive" % nid, "%s installs a chunk size that is provably positive (lower bound %d of %s)" % (short(nid), lo, sy.show(e)[:60]), f.loc(bi))
